@@ -1326,7 +1326,7 @@ func (c *Ctx) lenAxioms(st *State, mt *types.Map, m Term) {
 	key := "lenax:" + d + ":" + l
 	if !c.declared[key] {
 		c.declared[key] = true
-		c.assert("(forall ((m Ref)) (! (>= (select " + l + " m) 0) :pattern ((select " + l + " m))))")
+		c.assert("(forall ((m Ref)) (! (and (>= (select " + l + " m) 0) (<= (select " + l + " m) 9223372036854775807)) :pattern ((select " + l + " m))))")
 		c.assert("(forall ((m Ref) (k " + ks + ")) (! (=> (select (select " + d + " m) k) (> (select " + l + " m) 0)) :pattern ((select (select " + d + " m) k))))")
 		c.assumed["len(map) is modelled by a counter kept consistent with the domain (len >= 0; len > 0 iff some key is present; len > 1 iff two distinct keys are present)"] = true
 	}
